@@ -199,6 +199,10 @@ fn translate_block(
                 }
             }?;
 
+            if semantics::details(&instruction)?.update_cr0 {
+                semantics::record_cr0(&mut instruction_graph, &instruction)?;
+            }
+
             match instruction_id {
                 capstone::ppc_insn::PPC_INS_B => {
                     let detail = semantics::details(&instruction)?;
